@@ -1,4 +1,4 @@
-import GopatchModel.Spec.Frame
+import GopatchModel.Spec.FrameAll
 namespace Gopatch.C05
 open Gopatch
 
@@ -46,6 +46,24 @@ theorem applySites_step (c : Change) (assoc : List (Nat × Nat)) (s : Site) (ss 
     applySites c assoc (s :: ss) tree =
       applySites c assoc ss (if assignable give s.slotTy then setV s.parent s.field s.index give tree else tree) := by
   simp [applySites, hg, bind, Except.bind]
+
+/-- **Frame of a whole change.** With the slots of the matched sites blanked (all at once, and
+nothing else: `blanking_nothing_hides_nothing`), the tree after the replacement loop is the tree
+before it — for every list of sites, every generated value, admissible or not, every order. -/
+theorem change_rewrites_only_its_sites (c : Change) (assoc : List (Nat × Nat)) (sites : List Site) (tree tree' : V)
+    (h : applySites c assoc sites tree = .ok tree') :
+    maskP (slotsOf sites) tree' = maskP (slotsOf sites) tree :=
+  applySites_in_slots c assoc (slotsOf sites) sites tree tree' (fun s hs => slotsOf_mem sites s hs) h
+
+/-- the blanking used above hides the given slots only: with no slot to blank it is the identity -/
+theorem blanking_nothing_hides_nothing (v : V) : maskP (slotsOf []) v = v := maskP_empty v
+
+/-- non-vacuity: in `f(a, b)` with the second argument a site, blanking keeps `f` and `a` -/
+example :
+    maskP (slotsOf [{ parent := 1, field := 1, index := some 1, slotTy := "ast.Expr", data := default }])
+      (.ptr "ast.CallExpr" 1 [.iface "ast.Expr" (.str "f"), .slice "ast.Expr" [.str "a", .str "b"]])
+    = .ptr "ast.CallExpr" 1 [.iface "ast.Expr" (.str "f"), .slice "ast.Expr" [.str "a", hole]] := by
+  simp [maskP, maskFields, maskPs, blankP, blankElems, slotsOf]
 
 /-- the package clause changes only if the '+' side names a package -/
 theorem package_kept (c : Change) (f f' : FileM) (k : Nat) (h : applyChange c f = .ok f' k) (hp : c.plus.pkg = "") :
